@@ -1114,4 +1114,41 @@ theorem ligTransition_sim (t : LigTable) (hcomp : ∀ i v, t.components i = some
       refine ⟨cs, b, _, _, rfl, hr, rfl, rfl, ⟨st.length, ?_⟩, rfl⟩
       rw [List.take_of_length_le (Nat.le_refl _)]
 
+/-! ### a concrete instance (non-vacuity of the hypotheses of `C17_ligature_stack_discipline`) -/
+
+/-- two actions (pop; pop + Last), every component value 1, ligature 9 for the sum 2; three glyphs `5 6 7` with the cursor
+    on the second, the first already on the stack -/
+def exLigTable : LigTable := ⟨fun i => #[0, 0x80000000][i]?, fun _ => some 1, fun i => if i == 2 then some 9 else none⟩
+def exLigBuf : RbModel.Buf :=
+  { info := [{ gid := 5 }, { gid := 6, cluster := 1 }, { gid := 7, cluster := 2 }], out := [{}, {}, {}], idx := 1, len := 3,
+    outLen := 1, haveOutput := true, maxLen := 100 }
+def exLigSt : St := { xs := #[5, 6, 7], i := 1, ops := 0, stack := [0], lost := 0 }
+def exLigCS : CS := { matchLen := 1 }
+
+theorem exLig_rlig : Rlig exLigCS exLigBuf [0] 0 exLigSt := by
+  refine ⟨⟨rfl, rfl, by decide, by decide, ?_⟩, ?_, ?_, ⟨⟨by decide, by decide, by decide, (fun h => by simp [exLigBuf] at h), (fun _ => by decide), rfl⟩, rfl, by decide⟩, rfl, rfl, rfl, ⟨rfl, ?_⟩⟩
+  · intro k _ hk
+    have : k = 0 := by simp at hk; omega
+    subst this; rfl
+  · intro i j x y hij hx hy
+    have hj : j = 0 := by
+      rcases Nat.eq_zero_or_pos j with h | h
+      · exact h
+      · rw [List.getElem?_eq_none (by simp; omega)] at hy; cases hy
+    have hi : i = 0 := by omega
+    subst hi; subst hj
+    simp at hx hy; omega
+  · intro x hx; simp at hx; subst hx; decide
+  · intro q
+    match q with
+    | 0 => rfl
+    | 1 => rfl
+    | 2 => rfl
+    | q + 3 =>
+      have : exLigSt.xs[q + 3]? = none := by simp [exLigSt]
+      rw [this]
+      unfold gv RbModel.Buf.seq
+      have : ¬ q + 2 < 2 := by omega
+      simp [exLigBuf, this]
+
 end RbModel.Morx
